@@ -8,7 +8,7 @@ use crate::subscriptions::{
     AckDeadline, AckId, AcknowledgeMessagesError, DeadlineModification, PulledMessage,
     SubscriptionInfo, SubscriptionStats,
 };
-use crate::topics::{RemoveSubscriptionError, Topic, TopicMessage, TopicName};
+use crate::topics::{Topic, TopicMessage, TopicName};
 use futures::future::Shared;
 use futures::FutureExt;
 use parking_lot::Mutex;
@@ -166,7 +166,7 @@ impl SubscriptionActor {
                 let _ = responder.send(result);
             }
             SubscriptionRequest::Delete { responder } => {
-                let result = self.delete().await;
+                let result = self.delete();
                 let _ = responder.send(result);
             }
             SubscriptionRequest::GetStats { responder } => {
@@ -262,22 +262,15 @@ impl SubscriptionActor {
     }
 
     /// Marks the subscription as deleted. Further requests will be no-ops.
-    async fn delete(&mut self) -> Result<(), DeleteError> {
+    ///
+    /// The subscription has been removed from its topic by the time this is called
+    /// (see `Subscription::delete`); the actor itself never waits for the topic.
+    fn delete(&mut self) -> Result<(), DeleteError> {
         if self.deleted {
             return Ok(());
         }
 
         self.deleted = true;
-
-        // If the topic is still around, remove ourselves from it's list of subscriptions.
-        if let Some(topic) = self.topic.upgrade() {
-            topic
-                .remove_subscription(self.info.name.clone())
-                .await
-                .map_err(|e| match e {
-                    RemoveSubscriptionError::Closed => DeleteError::Closed,
-                })?;
-        }
 
         self.delegate.delete(&self.info.name);
         self.observer.notify_deleted();
